@@ -1,7 +1,6 @@
 package rules
 
 import (
-	"fmt"
 	"go/types"
 
 	"golang.org/x/tools/go/ssa"
@@ -177,33 +176,22 @@ func c01(c *core.Ctx, r *core.Report) {
 	if l == nil {
 		return
 	}
-	// R1 provenance at Inject call sites
+	// R1 provenance of injected candidates: the populator's decision table; Inject has no other caller
 	n := 0
 	for _, fn := range c.Scope {
 		for _, ci := range core.Calls(fn) {
-			if !core.IsCallTo(ci.Common(), ro.PropertyInject) {
-				continue
+			if core.IsCallTo(ci.Common(), ro.PropertyInject) {
+				n++
 			}
-			n++
-			cons := "inject-args@" + core.FnName(fn)
-			ok := true
-			why := ""
-			cnt := 0
-			for _, o := range core.Origins(ci.Common().Args[1], nil) {
-				ex, isEx := o.(*ssa.Extract)
-				if isEx {
-					if call, isCall := ex.Tuple.(*ssa.Call); isCall && ex.Index == 0 && core.IsCallTo(call.Common(), l.accessor) {
-						cnt++
-						continue
-					}
-				}
-				ok = false
-				why = fmt.Sprintf("element source %s (%T)", o.Name(), o)
-			}
-			r.Check(ok && cnt > 0, "C01.R1", cons, c.Pos(ci.Pos()), "every candidate handed to Inject is a result of the cache accessor "+why)
 		}
 	}
-	r.Floor("C01.R1", "Inject call sites", n, 1)
+	r.Exactly("C01.R1", "Inject call sites", n, 1)
+	populateRules(c, r, l, func(row string) string {
+		if row == "from-accessor" || row == "re-entrant" {
+			return "C01.R1"
+		}
+		return ""
+	})
 	// R2
 	accessorRules(c, r, "C01.R2", l)
 	// R3
